@@ -735,70 +735,98 @@ fn main() {
             }
         }
         rec(0, k, &op_alpha, &mut Vec::new(), &mut sets);
+        let mut items: Vec<(Call, Vec<Call>)> = Vec::new();
         for t in &transitions {
             for ops in &sets {
-                if Instant::now() > deadline {
-                    run.cap_hit(&format!("time budget in race part at {k} ops, bound {bound}"));
-                    break 'plan;
-                }
-                let a = race_case(idx, t, ops, &mut Chooser::new(vec![]));
-                let b = race_case(idx, t, ops, &mut Chooser::new(vec![]));
-                if a.labels != b.labels || a.outcome_key != b.outcome_key {
-                    vcore::report::machinery(&format!("nondeterministic replay for {t:?} vs {ops:?}"));
-                }
-                let mut found: Vec<(Vec<u32>, Vec<(String, String)>)> = Vec::new();
-                let mut execs = 0u64;
-                let mut steps = 0u64;
-                let mut diverged = None;
-                let stats = choice::explore(
-                    bound,
-                    threads,
-                    deadline,
-                    u64::MAX,
-                    |ch| {
-                        let r = race_case(idx, t, ops, ch);
-                        (r, ch.diverged.clone())
-                    },
-                    |choices, (r, div)| {
-                        execs += 1;
-                        steps += r.steps as u64;
-                        outcome_kinds.insert(r.outcome_key);
-                        if let Some(d) = div {
-                            diverged = Some(d);
-                            return false;
-                        }
-                        if !r.problems.is_empty() {
-                            found.push((choices, r.problems));
-                            return false;
-                        }
-                        true
-                    },
-                );
-                if let Some(d) = diverged {
-                    vcore::report::machinery(&format!("{t:?} vs {ops:?}: {d}"));
-                }
-                run.add("executions", execs);
-                run.add("evaluations", execs);
-                run.add("transitions", steps);
-                run.add("race_sets", 1);
-                run.distinct(util::fnv64(format!("race {t:?} {ops:?}").as_bytes()));
-                if k == 2 {
-                    run.sample(json!({"part": "race", "transition": format!("{t:?}"), "ops": format!("{ops:?}"), "preemption_bound": bound, "executions": stats.executions, "per_bound_level": stats.per_level}));
-                }
-                for (choices, ps) in found {
-                    for (sig, msg) in ps {
-                        run.violation(Violation {
-                            signature: format!("C06|{sig}"),
-                            summary: format!("{t:?} vs {ops:?} schedule {choices:?}: {msg}"),
-                            replay: json!({"kind": "race", "transition": t, "ops": ops, "choices": choices}),
-                        });
+                items.push((t.clone(), ops.clone()));
+            }
+        }
+        struct SetOut {
+            t: Call,
+            ops: Vec<Call>,
+            machinery: Option<String>,
+            found: Vec<(Vec<u32>, Vec<(String, String)>)>,
+            execs: u64,
+            steps: u64,
+            keys: Vec<u64>,
+            stats: Option<choice::ExploreStats>,
+            skipped: bool,
+        }
+        let outs = util::par_map(items, threads, |(t, ops)| {
+            let mut so = SetOut { t: t.clone(), ops: ops.clone(), machinery: None, found: vec![], execs: 0, steps: 0, keys: vec![], stats: None, skipped: false };
+            if Instant::now() > deadline {
+                so.skipped = true;
+                return so;
+            }
+            let a = race_case(idx, &t, &ops, &mut Chooser::new(vec![]));
+            let b = race_case(idx, &t, &ops, &mut Chooser::new(vec![]));
+            if a.labels != b.labels || a.outcome_key != b.outcome_key {
+                so.machinery = Some(format!("nondeterministic replay for {t:?} vs {ops:?}"));
+                return so;
+            }
+            let stats = choice::explore(
+                bound,
+                1,
+                deadline,
+                u64::MAX,
+                |ch| {
+                    let r = race_case(idx, &t, &ops, ch);
+                    (r, ch.diverged.clone())
+                },
+                |choices, (r, div)| {
+                    so.execs += 1;
+                    so.steps += r.steps as u64;
+                    so.keys.push(r.outcome_key);
+                    if let Some(d) = div {
+                        so.machinery = Some(d);
+                        return false;
                     }
-                }
-                if stats.capped {
-                    run.cap_hit(&format!("time budget inside {t:?} vs {ops:?} (bound {bound}); completed bound {:?}", stats.completed_bound));
-                    break 'plan;
+                    if !r.problems.is_empty() {
+                        so.found.push((choices, r.problems));
+                        return false;
+                    }
+                    true
+                },
+            );
+            so.stats = Some(stats);
+            so
+        });
+        let mut capped = false;
+        for so in outs {
+            if let Some(m) = so.machinery {
+                vcore::report::machinery(&format!("{:?} vs {:?}: {m}", so.t, so.ops));
+            }
+            if so.skipped {
+                capped = true;
+                continue;
+            }
+            let (t, ops) = (so.t, so.ops);
+            run.add("executions", so.execs);
+            run.add("evaluations", so.execs);
+            run.add("transitions", so.steps);
+            run.add("race_sets", 1);
+            run.distinct(util::fnv64(format!("race {t:?} {ops:?}").as_bytes()));
+            outcome_kinds.extend(so.keys);
+            let stats = so.stats.unwrap();
+            if k == 2 {
+                run.sample(json!({"part": "race", "transition": format!("{t:?}"), "ops": format!("{ops:?}"), "preemption_bound": bound, "executions": stats.executions, "per_bound_level": stats.per_level}));
+            }
+            for (choices, ps) in so.found {
+                for (sig, msg) in ps {
+                    run.violation(Violation {
+                        signature: format!("C06|{sig}"),
+                        summary: format!("{t:?} vs {ops:?} schedule {choices:?}: {msg}"),
+                        replay: json!({"kind": "race", "transition": t, "ops": ops, "choices": choices}),
+                    });
                 }
             }
+            if stats.capped {
+                capped = true;
+            }
+        }
+        if capped {
+            run.cap_hit(&format!("time budget in race part at {k} ops, bound {bound}"));
+            break 'plan;
         }
         completed.push(format!("every transition x every set of {k} operations, preemption bound {bound}"));
     }
